@@ -25,7 +25,7 @@ const (
 )
 
 type c16Op struct {
-	Op  string `json:"op"` // reg, rereg, unreg, feed, peergone, restart
+	Op  string `json:"op"` // reg, rereg, regagain, unreg, feed, peergone, restart
 	X   int    `json:"x"`
 	Out int    `json:"out"`
 }
@@ -484,6 +484,22 @@ func c16Run(c *vk.Ctx, cs c16Case) {
 			if atomic.LoadInt32(&old.starts) != sb || atomic.LoadInt32(&dup.starts) != 0 {
 				h.fail("c16.double-instance", "registering address %s twice started an adapter again", old.addr)
 			}
+		case "regagain":
+			// the address is registered again while the adapter waits for its retry (discovery does this on
+			// every beacon of a peer): the manager tries to start the known instance at once
+			if !h.waiting(i) {
+				continue
+			}
+			out := op.Out
+			if cs.Perm[i] && out == outNoRetry {
+				out = outRetry // what "do not retry" means for a permanent adapter on this path is not stated
+			}
+			h.logf("%s out=%d", step, out)
+			if out != outOK {
+				failing = true
+			}
+			v := h.conv[i]
+			h.inHandler(fmt.Sprintf("Register(adapter %d) again while it waits for its retry", i), func() { m.Register(v.as()) }, i, out)
 		case "unreg":
 			h.logf("%s", step)
 			h.unregister(i)
@@ -612,7 +628,7 @@ func genC16(t *rapid.T) c16Case {
 		cs.Perm = append(cs.Perm, rapid.Bool().Draw(t, "perm"))
 		cs.Sender = append(cs.Sender, rapid.Bool().Draw(t, "sender"))
 	}
-	ops := []string{"reg", "reg", "feed", "feed", "feed", "unreg", "rereg", "peergone", "restart"}
+	ops := []string{"reg", "reg", "feed", "feed", "feed", "unreg", "rereg", "regagain", "regagain", "peergone", "restart"}
 	cs.Ops = rapid.SliceOfN(rapid.Custom(func(t *rapid.T) c16Op {
 		return c16Op{Op: rapid.SampledFrom(ops).Draw(t, "op"), X: rapid.IntRange(0, n-1).Draw(t, "x"),
 			Out: rapid.SampledFrom([]int{outOK, outOK, outRetry, outRetry, outRetry, outNoRetry}).Draw(t, "out")}
@@ -624,6 +640,6 @@ func genC16(t *rapid.T) c16Case {
 func TestVerifC16Traces(t *testing.T) {
 	log.SetOutput(io.Discard)
 	u := vk.Unit{Property: "C16", Name: "c16.traces", Quick: 2400, Thorough: 20000,
-		Rule: "traces of up to 14 steps over {register, register-again, unregister, retry tick with scripted outcome (succeeds / fails-retry / fails-no-retry), peer-disappeared, restart} for 1..3 adapters (senders/receivers, permanent or not) and retry budget 0..3, closed by Manager.Close; the real Manager.handler runs with a 4 ms retry interval and every adapter Start blocks at a gate until the harness supplies the scripted outcome; oracle = reference state machine fed by the observed Start/Close calls: legal starts only, Sender()/Receiver() == model's active set after every step, waiting adapters get their next Start, exhausted ones are forgotten, one Close per successful Start, Close returns; non-trivial = trace with >= 1 failing start; distinct by case hash"}
+		Rule: "traces of up to 14 steps over {register, register-again while started, register-again while waiting for a retry (scripted outcome), unregister, retry tick with scripted outcome (succeeds / fails-retry / fails-no-retry), peer-disappeared, restart} for 1..3 adapters (senders/receivers, permanent or not) and retry budget 0..3, closed by Manager.Close; the real Manager.handler runs with a 4 ms retry interval and every adapter Start blocks at a gate until the harness supplies the scripted outcome; oracle = reference state machine fed by the observed Start/Close calls: legal starts only, Sender()/Receiver() == model's active set after every step, waiting adapters get their next Start, exhausted ones are forgotten, one Close per successful Start, Close returns; non-trivial = trace with >= 1 failing start; distinct by case hash"}
 	vk.Check(t, u, genC16, c16Run)
 }
